@@ -140,7 +140,8 @@ Record kernel_case := mkKC {
   kc_id : N; kc_fn : N; kc_points : list point; kc_step : Z; kc_range : Z; kc_offset : Z;
   kc_expected : option float }.
 
-Definition feqb' (a b : float) : bool := PrimFloat.eqb a b || (PrimFloat.is_nan a && PrimFloat.is_nan b).
+Definition feqb' (a b : float) : bool :=
+  (PrimFloat.eqb a b && PrimFloat.eqb (1 / a) (1 / b)) || (PrimFloat.is_nan a && PrimFloat.is_nan b).
 
 Definition kernel_case_ok (c : kernel_case) : bool :=
   match range_fn (kc_fn c) (kc_points c) (kc_step c) (kc_range c) (kc_offset c), kc_expected c with
